@@ -58,7 +58,7 @@ func compileLimit(src string, opts, limit int) (*regexp2.Regexp, error) {
 	if err == nil {
 		re.MatchTimeout = shortTimeout
 		if _, ok := fastTimeout.Load(src); ok && limit >= 0 {
-			re.MatchTimeout = 40 * time.Millisecond
+			re.MatchTimeout = 15 * time.Millisecond
 		}
 	}
 	return re, err
@@ -69,6 +69,7 @@ func compileLimit(src string, opts, limit int) (*regexp2.Regexp, error) {
 type limRes struct {
 	find, boolean, str string
 	all, repl          string
+	split, rfunc, chn  string
 	alloc              int64
 	panicked           string
 }
@@ -111,6 +112,28 @@ func callUnder(src string, opts, limit int, runes []rune) (res limRes, re *regex
 			} else {
 				res.repl = rp
 			}
+			if sp, e := re.Split(string(runes), -1); e != nil {
+				res.split = "error:" + mon.ErrClass(e)
+			} else {
+				res.split = fmt.Sprintf("%q", sp)
+			}
+			if rp, e := re.ReplaceFunc(string(runes), func(m regexp2.Match) string { return "[" + m.String() + "]" }, -1, -1); e != nil {
+				res.rfunc = "error:" + mon.ErrClass(e)
+			} else {
+				res.rfunc = rp
+			}
+			// the chain: an error in the middle must come out as an error, not as the end of the chain
+			var sb strings.Builder
+			cm, ce := re.FindStringMatch(string(runes))
+			for k := 0; cm != nil && ce == nil && k < len(runes)+2; k++ {
+				fmt.Fprintf(&sb, "(%d,%d)", cm.RuneIndex, cm.RuneLength)
+				cm, ce = re.FindNextMatch(cm)
+			}
+			if ce != nil {
+				res.chn = "error:" + mon.ErrClass(ce)
+			} else {
+				res.chn = sb.String()
+			}
 		}
 	})
 	if p != nil {
@@ -141,7 +164,7 @@ func limitLaws(src string, opts int, runes []rune, quick bool, st func(string)) 
 		return "with the limit disabled: " + base.panicked, "", 0, 0
 	}
 	noBase := false
-	for _, v := range []string{base.find, base.boolean, base.str, base.all, base.repl} {
+	for _, v := range []string{base.find, base.boolean, base.str, base.all, base.repl, base.split, base.rfunc, base.chn} {
 		if strings.HasPrefix(v, "error:") {
 			if v != "error:timeout" || !allowNoBase[src] {
 				return "", "unlimited-run-" + v, 0, 0
@@ -183,7 +206,7 @@ func limitLaws(src string, opts int, runes []rune, quick bool, st func(string)) 
 			return false, false, fmt.Sprintf("limit %d: %s", L, res.panicked)
 		}
 		success = true
-		for _, pr := range [][3]string{{"FindRunesMatch", res.find, base.find}, {"MatchRunes", res.boolean, base.boolean}, {"FindStringMatch", res.str, base.str}, {"FindAllStringIndex", res.all, base.all}, {"Replace", res.repl, base.repl}} {
+		for _, pr := range [][3]string{{"FindRunesMatch", res.find, base.find}, {"MatchRunes", res.boolean, base.boolean}, {"FindStringMatch", res.str, base.str}, {"FindAllStringIndex", res.all, base.all}, {"Replace", res.repl, base.repl}, {"Split", res.split, base.split}, {"ReplaceFunc", res.rfunc, base.rfunc}, {"FindStringMatch+FindNextMatch chain", res.chn, base.chn}} {
 			switch {
 			case pr[1] == pr[2]:
 			case noBase && pr[1] == "error:timeout":
@@ -381,6 +404,9 @@ func runC13(r *core.Run) int {
 		} else {
 			inputs = [][]rune{[]rune(strings.Repeat("abcdx", 4)), []rune(strings.Repeat("abcdefghijklmnox", 8)), []rune(strings.Repeat("abcdx", 40)), []rune("aabbccdd"), []rune("aabbccddxe"), []rune(strings.Repeat("ab", 60) + "cz"), []rune(strings.Repeat("a", 200)), []rune(strings.Repeat("abcd", 50) + "xy1"), []rune("xxxxxxxxxxxxxxxxxxxxxxxxxxxxxxy")}
 		}
+		if pc.origin == "fixed" && strings.Contains(pc.src, "x?)*") {
+			inputs = inputs[:3] // catastrophic without a limit: every base run costs eight timeouts
+		}
 		l.Count("patterns", 1)
 		st := func(k string) { l.Count(k, 1) }
 		var nontriv int64
@@ -419,7 +445,7 @@ func runC13(r *core.Run) int {
 	})
 	r.Extras["bounds"] = map[string]any{"patterns": nPat, "inputs_per_pattern": nInputs + 2, "limits": "0..64 (quick: a subset), 100, 1000, default, 64*2^k-1..+1 up to 16384, bisection threshold L* and L*-2..L*+2, -1"}
 	return r.Finish(
-		"patterns with deep nesting, counted and lazy loops, look-arounds and many alternations (random ASTs + fixed families) on inputs long enough to need several stack doublings; per (pattern,input,L): FindRunesMatch, MatchRunes and FindStringMatch under OptionMaxBacktrackingStackSize(L) must return the limit-disabled result or ErrBacktrackingStackLimit, never panic, never allocate more than L slots (verifTrackAlloc events), never fail at a limit above one that succeeded, and leave the Regexp answering a control call like a fresh one; evaluation = one (pattern,input,L); non-trivial = distinct (pattern,input) for which at least one limit produced ErrBacktrackingStackLimit",
+		"patterns with deep nesting, counted and lazy loops, look-arounds and many alternations (random ASTs + fixed families) on inputs long enough to need several stack doublings; per (pattern,input,L): FindRunesMatch, MatchRunes, FindStringMatch, FindAllStringIndex, Replace, Split, ReplaceFunc and the FindNextMatch chain under OptionMaxBacktrackingStackSize(L) must return the limit-disabled result or ErrBacktrackingStackLimit, never panic, never allocate more than L slots (verifTrackAlloc events), never fail at a limit above one that succeeded, and leave the Regexp answering a control call like a fresh one; evaluation = one (pattern,input,L); non-trivial = distinct (pattern,input) for which at least one limit produced ErrBacktrackingStackLimit",
 		[]string{"timeouts (400 ms) make a case inconclusive", "the bisection uses the monotonicity the property claims and is cross-checked by the sorted sweep"},
 		map[string]int64{"evaluations": 20000, "distinct_nontrivial": 300, "limit_errors_observed": 5000})
 }
